@@ -19,6 +19,9 @@ ASSUMPTIONS = [
 
 def run(case):
     path = np.array(case['path'], float)
+    if case.get('tile', 1) > 1:
+        st_ = np.diff(path, axis=0)
+        path = np.concatenate([path[:1], path[:1] + np.cumsum(np.tile(st_, (case['tile'], 1, 1)), axis=0)], axis=0)
     T, N, _ = path.shape
     M = np.array(case['lattice']['matrix'], float)
     form = case.get('form', 'wrapped')
@@ -72,8 +75,9 @@ def run(case):
     wd = np.linalg.norm(cart, axis=-1).T
     if dist.shape != wd.shape or np.abs(dist - wd).max() > 1e-9 * max(1.0, wd.max()):
         raise Violation('distance-equals-cartesian-length', f'max deviation {np.abs(dist - wd).max() if dist.shape == wd.shape else dist.shape}')
-    for dims in (1, 2, 3):
-        d = float(gcall(gcall(t.metrics).tracer_diffusivity, dimensions=dims))
+    mobj = gcall(t.metrics)  # one metrics object asked for every dimensionality in turn
+    for dims in case.get('dims_order', (3, 1, 2)):
+        d = float(gcall(mobj.tracer_diffusivity, dimensions=dims))
         wantd = float(np.mean(np.sum(cart[-1] ** 2, axis=-1)) * oracle.ANGSTROM**2 / (2 * dims * T * case['time_step']))
         if abs(d - wantd) > 1e-9 * abs(wantd) + 1e-9 * scale * oracle.ANGSTROM**2 / (2 * dims * T * case['time_step']):
             raise Violation('tracer-diffusivity-equals-definition', f'dimensions={dims}: reported {d!r}, mean_i |dr_i(final)|^2 / (2 d t) = {wantd!r} (atoms={N})')
@@ -99,6 +103,8 @@ def msd_cases(draw, tier):
     c['path'] = (path + drift * np.arange(T).reshape(T, 1, 1)).tolist()
     c['form'] = draw(st.sampled_from(['wrapped', 'wrapped', 'unwrapped', 'displacements']))
     c['touch_first'] = draw(st.booleans())
+    c['dims_order'] = draw(st.permutations([1, 2, 3]))
+    c['tile'] = draw(st.sampled_from([1, 1, 1, 1, 1, 40])) if T >= 12 else 1  # a long run: hundreds of cell crossings
     c['prelude'] = draw(st.lists(st.sampled_from(['positions', 'displacements', 'cumulative', 'center_of_mass', 'haven', 'com_diffusivity', 'msd', 'distances', 'filter', 'drift']), max_size=4))
     return c
 
